@@ -6,7 +6,9 @@
 (* the bytes are valid JSON (valid) and WriterSpec!WellFormed(tree, out).      *)
 (***************************************************************************)
 EXTENDS WriterSpec, TraceBase
-Good(e) == e.valid /\ e.same4 /\ e.appendok /\ e.prefixok /\ WellFormed(e.tree, e.out)
+\* "ser": a constructor-built object (tree known); "ser2": an object built by Parse from a generated document
+Good(e) == /\ e.valid /\ e.same4 /\ e.appendok /\ e.prefixok
+           /\ (IF e.op = "ser" THEN WellFormed(e.tree, e.out) ELSE e.isobject)
 Why(e) == IF ~e.valid THEN "output is not valid JSON" ELSE IF ~e.same4 THEN "JSON/String/MarshalJSON/AppendJSON(nil) differ"
           ELSE IF ~e.appendok THEN "AppendJSON(prefix) is not prefix + JSON()" ELSE IF ~e.prefixok THEN "AppendJSON modified the prefix"
           ELSE "type / coordinates nesting / null for non-finite ordinates"
